@@ -529,8 +529,13 @@ impl<'a> GeneratorState<'a> {
                             if let Expr::Integer(8) = *rhs2 {
                                 if let Expr::Identifier(var, sub) = *lhs2 {
                                     if let Expr::Nothing = *sub {
-                                        let v = self.compiler_state.get_variable(var.as_str());
-                                        if v.var_type == VariableType::CharPtr && v.var_const {
+                                        // (X and Y are not in the variables table)
+                                        let const_ptr =
+                                            self.compiler_state.variables.get(var.as_str()).map_or(
+                                                false,
+                                                |v| v.var_type == VariableType::CharPtr && v.var_const,
+                                            );
+                                        if const_ptr {
                                             if self.acc_in_use {
                                                 self.sasm(PHA)?;
                                             }
@@ -578,8 +583,13 @@ impl<'a> GeneratorState<'a> {
                             if let Expr::Integer(8) = *rhs2 {
                                 if let Expr::Identifier(var, sub) = *lhs2 {
                                     if let Expr::Nothing = *sub {
-                                        let v = self.compiler_state.get_variable(var.as_str());
-                                        if v.var_type == VariableType::CharPtr && v.var_const {
+                                        // (X and Y are not in the variables table)
+                                        let const_ptr =
+                                            self.compiler_state.variables.get(var.as_str()).map_or(
+                                                false,
+                                                |v| v.var_type == VariableType::CharPtr && v.var_const,
+                                            );
+                                        if const_ptr {
                                             if self.acc_in_use {
                                                 self.sasm(PHA)?;
                                             }
